@@ -311,6 +311,13 @@ namespace c11
   // by the reader; "weird:..." for inconsistencies the property does not speak about (no round trip is demanded
   // of such objects).
   // ------------------------------------------------------------------------------------------------------------
+  inline bool has_nonfinite(const J& j)
+  {
+    if(j.t == J::Dbl) return !std::isfinite(j.d);
+    for(const auto& x : j.a) if(has_nonfinite(x)) return true;
+    for(const auto& kv : j.o) if(has_nonfinite(kv.second)) return true;
+    return false;
+  }
   template<typename M> inline std::string validate_bundle(const Bundle<M>& b)
   {
     constexpr int dim = M::shape_dim;
@@ -361,6 +368,8 @@ namespace c11
       {
         const std::pair<std::string, const Atlas::ChartBase<M>*> kv(std::string(kv_.first), kv_.second.get());
         J c = chart_to_J<M>(*kv.second);
+        // e.g. angles="0 0 1e308": 2*pi*1e308 overflows, the rotation matrix is NaN and the writer then leaves the angles out
+        if(has_nonfinite(c)) weird("chart with non-finite numbers (overflow while reading)");
         const J* cc = &c;
         if(c.gets("type") == "extrude") { cc = c.get("sub"); if(!cc) { range("extrude without sub chart"); continue; } }
         std::string ty = cc->gets("type");
